@@ -245,11 +245,20 @@ fn native_c12_scripts() {
     let hb = [7u8; 15];
     let e = GeneratorError::TooSmallInput;
     check_script([Step::Deliver(5), Step::Deliver(BUFFER_SIZE), Step::Eof, Step::Eof], true, e, hb);
-    check_script([Step::Deliver(1), Step::Hard(2), Step::Deliver(9), Step::Eof], true, e, hb);
-    check_script([Step::Eof, Step::Eof, Step::Eof, Step::Eof], false, e, hb);
     check_script([Step::Deliver(3), Step::Deliver(4), Step::Deliver(5), Step::Deliver(6)], true, e, hb);
-    check_script([Step::Interrupted, Step::Deliver(3), Step::Interrupted, Step::Deliver(2)], true, e, hb);
-    check_script([Step::Deliver(3), Step::Interrupted, Step::Hard(0), Step::Eof], true, e, hb);
+    // every script of three steps over the eight kinds of step (+ EOF), both finalize outcomes
+    let kinds = [
+        Step::Deliver(3), Step::Deliver(BUFFER_SIZE), Step::Interrupted, Step::Hard(0),
+        Step::Hard(1), Step::Hard(2), Step::Hard(3), Step::Eof,
+    ];
+    for a in kinds.iter() {
+        for b in kinds.iter() {
+            for c in kinds.iter() {
+                check_script([*a, *b, *c, Step::Eof], true, e, hb);
+                check_script([*a, *b, *c, Step::Eof], false, e, hb);
+            }
+        }
+    }
 }
 
 /// A reader that lies about how much it read (contract-violating but safe code).
